@@ -332,6 +332,13 @@ static bool run_round3(const std::vector<std::string> &w, out &o)
         o.result = hexn(r, digits_rt(rt));
         uint32_t ref = ref_rt(rt, seed, m);
         if (r != ref) o.fail(rt + " of " + std::to_string(n) + " bytes in " + std::to_string(calls) + " call(s) != reference " + hexn(ref, digits_rt(rt)));
+        if (rt == "strm")
+        {
+            // residue: the message followed by its own CRC leaves 0 in the object
+            uint8_t c = (uint8_t)r;
+            igris_strmcrc8(&c, (char)r);
+            if (c != 0) o.fail("strmcrc8 residue != 0 after " + std::to_string(n) + " bytes");
+        }
         // two-piece chaining at split points around the counter-width boundaries
         static const size_t cuts[] = {252, 256, 260, 65532, 65536, 65540, 262140, 262144, 262148, 524288};
         if (rt == "crc32" || rt == "crc16" || rt == "strm")
